@@ -172,6 +172,7 @@ MARK_VARIANTS = ["comment", "big_small", "remark_user"]
 ISOLATING = ["iso", "table", "table_strict", "table_iso"]
 
 _cache: dict[str, tuple[Any, RefSchema]] = {}
+rx.on_reset(_cache.clear)
 
 
 def spec_of(ref: Any) -> dict:
